@@ -6,6 +6,7 @@ import (
 	"io"
 	"reflect"
 	"sort"
+	"time"
 
 	astisub "github.com/asticode/go-astisub"
 	"verif/harness/fw"
@@ -276,6 +277,18 @@ func c17Run(c *fw.Ctx) fw.Outcome {
 	d, variant := c17Doc(c)
 	n := len(d.Data)
 	key := fw.Mix(fw.HashBytes(d.Data), fw.HashString(d.Format))
+	if d.Format == "teletext" && variant == "invalid" {
+		// the third-party demultiplexer may itself never return on a damaged stream (seen: a corrupted VBI data
+		// descriptor): such a stream is outside the property; find out under a watchdog before enumerating schedules
+		done := make(chan struct{})
+		go func() { c08WatchedCall(func() { runRead(d, newSched(d.Data, nil, false, nil)) }); close(done) }()
+		select {
+		case <-done:
+		case <-time.After(20 * time.Second):
+			c.Count("streams_on_which_the_demultiplexer_hangs_skipped", 1)
+			return fw.Skip()
+		}
+	}
 	ref := runRead(d, newSched(d.Data, nil, false, nil))
 	if ref.panic != "" {
 		// totality is C08's business; here only the dependence on delivery is decided
